@@ -82,7 +82,11 @@ func verifyFunc(prog *Prog, specs *Specs, fn *ssa.Function, fc *FuncContract, op
 	un.exitState, un.exitRets = out, rets
 	coverFacts := len(un.facts)
 	if fc != nil {
-		sc := un.scopeFor(fr, out, un.entry, rets)
+		oldSt := un.entry
+		if un.acquireSnap != nil {
+			oldSt = un.acquireSnap
+		}
+		sc := un.scopeFor(fr, out, oldSt, rets)
 		n := 0
 		for _, cl := range fc.Clauses {
 			if cl.Kind != "ensures" {
@@ -93,18 +97,39 @@ func verifyFunc(prog *Prog, specs *Specs, fn *ssa.Function, fc *FuncContract, op
 				continue
 			}
 			n++
-			sc.retGuards = map[string]bool{}
-			t, _ := un.evalSpec(cl.E, sc)
-			// a clause about ret(callee, k, i) speaks only about executions in which that call happened
-			for g := range sc.retGuards {
-				t = implies(g, t)
+			var t string
+			var curParts []string
+			if len(un.topRets) >= 2 && len(un.topRets) <= 12 {
+				// one conjunct per return site, each over that site's own (unmerged) state: keeps the terms small
+				var parts []string
+				for _, r := range un.topRets {
+					rs := un.scopeFor(fr, r.st, oldSt, r.vals)
+					rs.retGuards = map[string]bool{}
+					pt, _ := un.evalSpec(cl.E, rs)
+					for g := range rs.retGuards {
+						pt = implies(g, pt)
+					}
+					parts = append(parts, implies(r.st.guard, pt))
+				}
+				t = and(parts...)
+				curParts = parts
+			} else {
+				sc.retGuards = map[string]bool{}
+				t, _ = un.evalSpec(cl.E, sc)
+				// a clause about ret(callee, k, i) speaks only about executions in which that call happened
+				for g := range sc.retGuards {
+					t = implies(g, t)
+				}
+				sc.retGuards = nil
 			}
-			sc.retGuards = nil
 			label := cl.Label
 			if label == "" {
 				label = fmt.Sprintf("ensures%d", n)
 			}
-			un.oblige(out, "post", fmt.Sprintf("%s/post:%s", funcKey(fn), label), cl.Props, t, fn.Pos(), cl.Text)
+			po := un.oblige(out, "post", fmt.Sprintf("%s/post:%s", funcKey(fn), label), cl.Props, t, fn.Pos(), cl.Text)
+			if len(curParts) > 1 {
+				po.Parts = curParts
+			}
 		}
 	}
 	un.frameObligations(fr, out)
